@@ -116,7 +116,7 @@ def history(rec, rng, case, one_request, revals):
             if step > 0:
                 cur_inputs = revalue(rng, case)
                 poke_inputs(case, ins, cur_inputs)
-                case2 = engine.Case(case.assignment, case.formats, case.sizes, cur_inputs, case.capacity, case.origin, case.target, case.tree)
+                case2 = engine.Case(case.assignment, case.formats, case.sizes, cur_inputs, case.capacity, case.origin, case.target, case.tree, case.direct_problem)
                 resE2, _ = engine.run_function(case2, problem, fns["evaluate"])
                 rawE2, wantE = engine.decode_output(resE2.out)
                 if structure_of(rawE2) != sE:
